@@ -360,10 +360,19 @@ Definition sp_lock_pool (tx : sp_txn) (cbal : option Z) (sp : sp_pool) : option 
         end
   end.
 
-(* StakePoolLock = validateLockRequest; LockPool; Save *)
-Definition sp_stake_pool_lock (tx : sp_txn) (cbal : option Z) (sp : sp_pool) (vs : sp_vs)
+(* StakePoolLock = validateLockRequest; LockPool; Save; EmitStakeEvent *)
+Definition sp_stake_pool_lock_core (tx : sp_txn) (cbal : option Z) (sp : sp_pool) (vs : sp_vs)
   : option (sp_pool * list sp_transfer) :=
   if sp_validate_lock tx sp vs then sp_lock_pool tx cbal sp else None.
+
+(* EmitStakeEvent recomputes the total stake with checked additions: an overflow fails the
+   transaction after everything else succeeded *)
+Definition sp_stake_pool_lock (tx : sp_txn) (cbal : option Z) (sp : sp_pool) (vs : sp_vs)
+  : option (sp_pool * list sp_transfer) :=
+  match sp_stake_pool_lock_core tx cbal sp vs with
+  | Some (sp', trs) => match sp_stake sp' with Some _ => Some (sp', trs) | None => None end
+  | None => None
+  end.
 
 (* MintRewards(clientId): transfers from the minter, new pool *)
 Definition sp_mint_rewards (minter client : Z) (sp : sp_pool) : option (sp_pool * list sp_transfer * Z) :=
@@ -384,7 +393,7 @@ Definition sp_mint_rewards (minter client : Z) (sp : sp_pool) : option (sp_pool 
 (* StakePoolUnlock after the lock-period test: UnlockPool (MintRewards + Int64 casts), Empty,
    DeletePool, Save.  [offers] = Some total_offers for a storagesc stake pool (its Empty keeps the
    remaining stake above the offers), None for the plain stakepool.Empty. *)
-Definition sp_unlock (minter ssc client : Z) (offers : option Z) (sp : sp_pool)
+Definition sp_unlock_core (minter ssc client : Z) (offers : option Z) (sp : sp_pool)
   : option (sp_pool * list sp_transfer) :=
   match sp_find client (sp_pools sp) with
   | None => None
@@ -410,6 +419,14 @@ Definition sp_unlock (minter ssc client : Z) (offers : option Z) (sp : sp_pool)
           | _, _ => None
           end
       end
+  end.
+
+(* ... followed by EmitStakeEvent (checked total of the remaining stake) *)
+Definition sp_unlock (minter ssc client : Z) (offers : option Z) (sp : sp_pool)
+  : option (sp_pool * list sp_transfer) :=
+  match sp_unlock_core minter ssc client offers sp with
+  | Some (sp', trs) => match sp_stake sp' with Some _ => Some (sp', trs) | None => None end
+  | None => None
   end.
 
 (* the lock period test of StakePoolUnlock: StakedAt > 0 && !(stakedAt + minLock < now) -> reject.
